@@ -6,6 +6,7 @@ package full
 import (
 	"context"
 	"fmt"
+	"io"
 	"net"
 	"os"
 	"path/filepath"
@@ -15,7 +16,15 @@ import (
 	"github.com/containerd/nri/pkg/adaptation"
 	"github.com/containerd/nri/pkg/api"
 	"github.com/containerd/nri/pkg/stub"
+	"github.com/sirupsen/logrus"
 )
+
+func init() {
+	if os.Getenv("VERIF_LOG") == "" {
+		logrus.SetOutput(io.Discard)
+		logrus.SetLevel(logrus.ErrorLevel)
+	}
+}
 
 // Runtime is the runtime side.
 type Runtime struct {
